@@ -266,6 +266,18 @@ class World:
             del others   # (types are shared through SetType and copies, as the specification says)
             e = o.add_data({nm(a["n"]): spec})
             self.bind(a["s"], e)
+        elif act == "AddDataLike":
+            o = self.ent(a["p"])
+            like = self.ent(a["e"])
+            assoc = ASSOC.get(type(o).__name__, "OBJECT")
+            prim = like.entity_type.primitive_type
+            kd = {"FLOAT": "float", "INTEGER": "int", "TEXT": "text", "BOOLEAN": "bool"}.get(getattr(prim, "name", str(prim)), self.dkind)
+            spec = {"values": self.values(a["v"], self.n_values(o), kd), "association": assoc,
+                    "entity_type": {"uid": like.entity_type.uid if self.variant % 2 else str(like.entity_type.uid),
+                                    "primitive_type": getattr(prim, "name", str(prim)),
+                                    "number_of_bins": 25, "units": "unit-x", "description": "joined"}}
+            e = o.add_data({nm(a["n"]): spec})
+            self.bind(a["s"], e)
         elif act == "AddComment":
             o = self.ent(a["p"])
             o.add_comment(f"comment {len(o.comments.values) if o.comments is not None else 0}", author="verif")
@@ -1079,11 +1091,16 @@ def replay_path(item):
                 bad("layout:" + _layout_kind(probs[0]), f"final file is not a valid geoh5 file: {probs[:3]}", "C02")
             w.side = {}
             gc.collect()
-            ws2 = w.Workspace(w.path, mode="r")
-            w.ws = ws2
-            w.rebind()
-            tree2 = w.live_tree()
-            ws2.close()
+            try:
+                ws2 = w.Workspace(w.path, mode="r")
+                w.ws = ws2
+                w.rebind()
+                tree2 = w.live_tree()
+                ws2.close()
+            except Exception as exc:  # pylint: disable=broad-except
+                bad("fresh-reader-fails", f"the final file cannot be loaded by a fresh read-only Workspace: "
+                    f"{type(exc).__name__}: {str(exc)[:200]}", "C01,C02,C06,C05,C09,C11,C12")
+                return viol
             if tree != tree2:
                 bad(_reopen_signature(tree, tree2, {int(x) for x in pre.get("dirty", [])}),
                     f"tree before close {tree} != tree of a fresh reader {tree2}", "C01")
